@@ -98,6 +98,7 @@ class C02(Prop):
         return st.fixed_dictionaries({
             'driver': st.sampled_from(['tick', 'run']),
             'multi': st.sampled_from([False, False, True]),
+            'defprio': st.booleans(),
             'waves': st.tuples(first, st.lists(wave, max_size=3)).map(lambda t: [t[0]] + t[1]),
         }).map(lambda s: dict(s, waves=_renumber(s['waves'])))
 
@@ -107,6 +108,11 @@ class C02(Prop):
 
         multi = bool(spec.get('multi'))
         chans = ('a', 'b') if multi else ()
+        defprio = bool(spec.get('defprio'))
+
+        def PK(p):
+            # defprio: an event of priority 0 is fired without a priority argument (the default IS 0), inside and outside handlers
+            return {} if (defprio and p == 0 and isinstance(p, int)) else {'priority': p}
 
         class App(BaseComponent):
             def _dispatcher(self, event, channels, remaining):
@@ -138,7 +144,7 @@ class C02(Prop):
                 try:
                     for kid, kp in h['kids']:
                         log.append(('fire', n['id'], kid['id'], kp))
-                        self.fire(node(kid), *chans, priority=kp)
+                        self.fire(node(kid), *chans, **PK(kp))
                         log.append(('fired', n['id'], kid['id']))
                     if h.get('flush'):
                         log.append(('fb', n['id'], hi))
@@ -172,7 +178,7 @@ class C02(Prop):
                         if t < len(waves):
                             for n, p in waves[t]:
                                 log.append(('fire', None, n['id'], p))
-                                app.fire(node(n), *chans, priority=p)
+                                app.fire(node(n), *chans, **PK(p))
                         elif driver.quiescent(app):
                             break
                         app.tick()
@@ -183,7 +189,7 @@ class C02(Prop):
                 else:
                     for n, p in waves[0]:
                         log.append(('fire', None, n['id'], p))
-                        app.fire(node(n), *chans, priority=p)
+                        app.fire(node(n), *chans, **PK(p))
                     idle = driver.run_to_quiescence(app, max_iter=200)
                     exhausted = idle.exhausted or idle.blocked > 0
             except BaseException as e:  # noqa
@@ -303,6 +309,8 @@ class C02(Prop):
 
         nontrivial = passes >= 2 and mixed_pass and overtaker
         classes = ['driver:' + spec['driver']]
+        if spec.get('defprio'):
+            classes.append('priority-0-fired-without-priority-argument')
         ranh = [(l[1], l[2]) for l in log if l[0] == 'h']
         if any(specs[e]['handlers'][hi]['stop'] for e, hi in ranh):
             classes.append('stop-executed')
